@@ -11,6 +11,15 @@ MODULE = "Alpen.Props.C14"
 OUTCOMES = ["alreadyPresent", "noRoute", "transportFailed", "digestMismatch", "success", "dbErrorEarly", "dbErrorLate"]
 
 
+def at_limit(db, node):
+    """the property's "at its size limit", computed from the index by the harness (not by the code under test): registered sizes
+    of the copies recorded present on the node add up to max_total_gb or more"""
+    if node.max_total_gb is None or node.max_total_gb <= 0:
+        return False
+    tot = sum((c.file.size_b or 0) for c in db.ArchiveFileCopy.select().where(db.ArchiveFileCopy.node == node.id, db.ArchiveFileCopy.has_file == "Y"))
+    return tot >= round(node.max_total_gb * 2 ** 30)
+
+
 class Scenario:
     """one destination node n2 on h1 with scripted free space; sources on h1 (routed), and an unrouted remote node"""
 
@@ -35,6 +44,11 @@ class Scenario:
         mx_k = rng.choice([None, None, None, 1, 10 ** 6])
         self.dst = w.node("dst", self.g_dst, stype="A", avail_kib=av_k, min_kib=mn_k, max_kib=mx_k)
         self.acq = w.acq("acq")
+        if mx_k == 1:
+            # registered sizes on the node: exactly the limit (1 KiB), one byte under it, or well over it
+            bsize = rng.choice([1024, 1024, 1023, 4096])
+            bf = w.file(self.acq, "ballast.dat", b"b", size=bsize)
+            db.ArchiveFileCopy.create(file=bf, node=self.dst, has_file="Y", wants_file="Y", size_b=bsize)
         self.q = FairMultiFIFOQueue()
         with dmod._mutex:
             dmod._reserved_bytes.clear()
@@ -139,7 +153,7 @@ def run(ctx):
                         tid += 1
                         node = db.StorageNode.get(id=sc.dst.id)
                         um = node.under_min
-                        om = node.check_over_max()
+                        om = at_limit(db, node)
                         qs = sc.q.qsize
                         e.set_host("h1")
                         sc.un.io.set_storage(node) if hasattr(sc.un.io, "set_storage") else None
@@ -246,7 +260,11 @@ def stage_transport_group(ctx, drv, nseq):
             for k in range(rng.randint(1, 3)):
                 bk = rng.choice([None, 0, 1, 2, 2, 10, 10])                 # KiB free as the file system reports
                 nd = w.node(f"t{k}", gt, stype="T", avail_kib=rng.choice([None, bk, bk, 5, 50]) if bk is not None else None,
-                            min_kib=rng.choice([0, 0, 0, 3]), max_kib=rng.choice([None, None, None, 10 ** 6]))
+                            min_kib=rng.choice([0, 0, 0, 3]), max_kib=rng.choice([None, None, None, 10 ** 6, 1]))
+                if nd.max_total_gb is not None and nd.max_total_gb < 1:
+                    bsize = rng.choice([1024, 1023, 2048])          # exactly at the limit, a byte under it, over it
+                    bf = w.file(acq, f"ballast{k}.dat", b"b", size=bsize)
+                    db.ArchiveFileCopy.create(file=bf, node=nd, has_file="Y", wants_file="Y", size_b=bsize)
                 tn.append(nd)
                 bav[nd.root] = None if bk is None else bk * 1024
             unknown = {nd.id for nd in tn if bav[nd.root] is None}
@@ -302,7 +320,7 @@ def stage_transport_group(ctx, drv, nseq):
                         for un in uns:
                             nd = un.db
                             recs.append((nd.id, None if nd.avail_gb is None else round(nd.avail_gb * 2 ** 20), bool(nd.under_min),
-                                         bool(nd.check_over_max()), bav[nd.root], rb[nd.id]))
+                                         at_limit(db, nd), bav[nd.root], rb[nd.id]))
                         picked = []
                         for un in uns:
                             orig = un.io.pull
